@@ -48,6 +48,17 @@ def extract(config='ship'):
     fpath = os.path.join(outdir, 'facts-%s.json' % config)
     if os.path.exists(fpath):
         return fpath, th, True
+    # one extraction at a time (the cargo target directory and its fingerprints are shared)
+    import fcntl
+    os.makedirs(CACHE, exist_ok=True)
+    with open(os.path.join(CACHE, 'extract.lock'), 'w') as lk:
+        fcntl.flock(lk, fcntl.LOCK_EX)
+        if os.path.exists(fpath):
+            return fpath, th, True
+        return _extract_locked(config, th, outdir, fpath)
+
+
+def _extract_locked(config, th, outdir, fpath):
     os.makedirs(outdir, exist_ok=True)
     target = os.path.join(CACHE, 'target-' + config)
     # cargo's freshness cache would skip the wrapper: force memterm to be re-checked
@@ -79,6 +90,6 @@ def extract(config='ship'):
     base = os.path.join(CACHE, 'facts')
     gens = sorted((os.path.getmtime(os.path.join(base, d)), d) for d in os.listdir(base)
                   if os.path.isdir(os.path.join(base, d)))
-    for _, d in gens[:-6]:
+    for _, d in gens[:-int(os.environ.get("MTSA_KEEP_FACTS", "8")):]:
         shutil.rmtree(os.path.join(base, d), ignore_errors=True)
     return fpath, th, False
